@@ -45,7 +45,7 @@ Definition has_body (v : option docview) : bool := match v with Some d => is_som
 
 (* the feed event that describes a document state (the function live and backfill must agree on) *)
 Definition fevent_of_view (coll : N) (key : string) (d : docview) : fevent :=
-  mkFevent (if v_del d then FDeletion else FMutation) key
+  mkFevent (if is_none (v_body d) then FDeletion else FMutation) key
            (match v_body d with Some b => b | None => "" end)
            (v_xattrs d) (v_json d) (v_xbit d) (v_cas d) (v_exp d) (v_rev d) coll.
 
@@ -540,14 +540,20 @@ Definition chk_step_C11 : step_chk := fun prev x o ob =>
           && forallb (fun e => row_absent (snd e)) (rows_inside name post)     (* (re-)created empty *)
       | _ => rows_eqb (sn_rows prev) (sn_rows post) && strs_eqb (sn_colls prev) (sn_colls post)
       end
-  | SPurge =>
-      strs_eqb (sn_colls prev) (sn_colls post)
-      && forallb (fun e => match look (fst e) (sn_rows prev) with
-                           | Some o0 => obsrow_eqb o0 (snd e) || (negb (o_exists o0) && row_absent (snd e))
-                           | None => false
-                           end) (sn_rows post)
+  | SPurge => strs_eqb (sn_colls prev) (sn_colls post)
   | SDump _ _ => rows_eqb (sn_rows prev) (sn_rows post) && strs_eqb (sn_colls prev) (sn_colls post)
   | SExpire => strs_eqb (sn_colls prev) (sn_colls post)
+  end.
+
+(* C05: PurgeTombstones removes exactly the body-less documents and reports their number *)
+Definition chk_step_purge : step_chk := fun prev x o ob =>
+  match o with
+  | SPurge =>
+      forallb (fun e => match look (fst e) (sn_rows prev) with
+                        | Some o0 => if o_exists o0 then obsrow_eqb o0 (snd e) else row_absent (snd e)
+                        | None => false
+                        end) (sn_rows (os_snap ob))
+  | _ => true
   end.
 
 Definition chk_C11_kv (t : scase * list ostep) : bool :=
@@ -593,3 +599,6 @@ Definition chk_row_C18 : rowchk := fun key coll x op pre resp evs post =>
   end.
 
 Definition chk_C18_kv := chk_kv chk_row_C18.
+
+Definition chk_C05_full (t : scase * list ostep) : bool :=
+  chk_C05_kv t && walk chk_step_purge (snap0 (fst t)) (sc_steps (fst t)) (snd t).
